@@ -23,7 +23,7 @@ Acts(b) ==
 EditActs(b) ==
   {[op |-> "set_item", i |-> i, arg |-> a] : i \in 1..Len(b.entries), a \in {C2, RestArg}} \cup
   {[op |-> "place_at", i |-> i, arg |-> C2] : i \in {j \in 1..Len(b.entries) : ~b.entries[j].c.rest /\ \A k \in 1..Len(b.entries) : b.entries[k].at = b.entries[j].at => k = j}} \cup
-  {[op |-> "set_meter", count |-> m[1], unit |-> m[2]] : m \in {<<4,4>>, <<6,8>>, <<3,6>>, <<5,4>>, <<0,0>>, <<2,3>>, <<12,8>>, <<4,5>>, <<3,2>>, <<7,12>>}}
+  {[op |-> "set_meter", count |-> m[1], unit |-> m[2]] : m \in {<<4,4>>, <<6,8>>, <<3,6>>, <<5,4>>, <<0,0>>, <<2,3>>, <<12,8>>, <<4,5>>, <<3,2>>, <<7,12>>, <<4,-4>>, <<3,-1>>, <<4,0>>, <<2,-2>>, <<6,-8>>}}
 Step(b, a) == CASE a.op = "place_notes" -> Place(b, a.v, a.arg)
                 [] a.op = "place_rest" -> Place(b, a.v, RestArg)
                 [] a.op = "plus" -> Place(b, PlusValue(b), a.arg)
@@ -49,6 +49,9 @@ InvPrefix == StartsArePrefixSums(bar)
 InvNeverOverfull == NeverOverfull(bar)
 InvFull == IsFull(bar) => bar.entries # <<>> /\ SpaceLeft(bar) <= L \div 1000
 PropRefused == [][ret' = FALSE => bar' = bar]_<<bar, hist, ret, m0>>
+\* place_notes_at sweep: bars longer than a whole note filled with equal values; notes are added at the beat of every entry in turn
+PlaceAtCases == {[meter |-> m, v |-> v, n |-> MeterLength(m[1], m[2]) \div Ticks(v)] :
+                    m \in {<<5,4>>, <<6,4>>, <<3,2>>, <<2,1>>, <<12,8>>, <<4,4>>}, v \in {[b |-> 4, d |-> 0, r |-> <<1,1>>], [b |-> 3, d |-> 0, r |-> <<1,1>>], [b |-> 5, d |-> 0, r |-> <<1,1>>]}}
 \* fills to capacity: for every meter and every vocabulary value, place it until it is refused, then twice more
 FillCases == {[meter |-> m, v |-> v, n |-> (MeterLength(m[1], m[2]) \div Ticks(v)) + 2] :
                  m \in Meters \ {<<0,0>>}, v \in Vocabulary}
